@@ -2,6 +2,8 @@
 the hand-over thread survives.  Scenario family and lockstep of C07 (static / dynamic / raising counts, blocking mode,
 cancels) on Model/Throttle.v; only the fault-related verdicts count here."""
 import p_c07 as base
+LINE_PREEMPT = False     # the Throttle monitor reconstructs queue / counter state from the ADJACENCY of log entries of one thread:
+#                          runs with line-level preemption (drive.py) would be misread by it
 
 PROP = "C18"
 MACHINE = base.MACHINE
